@@ -145,3 +145,23 @@ CHECKS["C21"]["note"] += " Sanitizer step: Miri (undefined-behaviour interpreter
 reg("C08", "rv-auth", "exploration", "reference access-rule evaluator vs observed authorization outcome",
     "Random access-rule trees up to the validation limits (depth 8, 64 nodes) over fungible / non-fungible / signature badges, with proof placements steered to witnesses and near-misses (amount minus one unit, sum-reaches-but-no-single-proof, exactly k-1 of count-of) and all auth-zone instructions, are attached to 19 vehicles (resource roles, role-assignment and metadata calls with owner fallback, accounts with OwnerRole = R, VERIFY_PARENT assertions flat and nested); authorization must pass iff an independent evaluator of the documented semantics says the applicable rule is satisfied (both directions verdict-bearing).",
     _LEDGER_NOTE + " Package function auth and assert_access_rule from a custom blueprint are not covered (VERIFY_PARENT is the explicit-assertion vehicle).", "DESIGN.md §4 C08")
+
+reg("C07", "rv-intent", "exploration", "history oracle (committed-intent model) over long epoch histories",
+    "Ledgers with 1-round epochs advanced only by real round-change transactions (quick 16 x 2500 epochs; thorough incl. histories of 27000 epochs = more than one full turn of the 19100-epoch tracker ring); real notarized V1/V2 transactions (0-4 subintents, failing roots/children) with epoch windows of every shape allowed by validation are committed and resubmitted in the same/next epoch, at random later epochs, around every tracker-partition rotation, at end-1, end and after; a harness-side model keyed by its own intent ids predicts which submissions must be rejected; a commit of such a submission is a violation.",
+    _LEDGER_NOTE + " Histories with epoch jumps larger than one per round are not explored. 'forever' is restated as: every resubmission of the explored history.", "DESIGN.md §4 C07")
+reg("C41", "rv-pool", "exploration", "BigInt solvency / fairness oracle over pool operation sequences",
+    "One/two/multi-resource pools (divisibilities 0,1,6,17,18) under random sequences of contribute / redeem / round trips / protected deposit+withdraw / drying and re-contribution with adversarial amounts: for each redemption paid_i*S <= u*R_i with pre-state read from the database, payouts multiples of the divisibility unit, accepted + change = offered exactly, accepted amounts in the pool ratio within one rounding unit, contribute-then-redeem never returns more, reserves never negative.",
+    _LEDGER_NOTE + " Ratio tolerance: one divisibility unit + the PreciseDecimal intermediate precision.", "DESIGN.md §4 C41")
+reg("C42", "rv-stake", "exploration", "BigInt proportionality oracle over staking histories and epoch changes",
+    "Per-episode genesis (1-3 genesis validators, max_validators 1-5, 1-round epochs, varied emission/reliability/unstake delays), up to 12 validators and random register/unregister/stake/unstake/claim/fee/lock operations with missed proposals: units*X <= amount*S on stake, XRD out <= proportional share on unstake and claim, stake-then-unstake never gains, per epoch minted emission <= configured amount and rewards <= reward vault, validator set members registered with stake > 0, ordered by stake, size <= max.",
+    _LEDGER_NOTE, "DESIGN.md §4 C42")
+_WASM_NOTE = "Trusted: wasmi 0.39.1 as the reference interpreter for the un-instrumented module, wasmparser for re-parsing accepted modules, the harness's own rule table transcribed from the documented limits and host import list."
+reg("C45", "rv-wasm", "exploration", "totality monitor + independent rule checker on every accepted module",
+    "validate() runs under catch_unwind on byte-mutated valid modules, raw bytes, hostile export names/shapes and WAT modules violating exactly one rule at limit-1/limit/limit+1; every accepted output module is re-parsed and checked by an independent rule checker (no floats, no start, single bounded exported memory, bounded tables/functions/params/locals/globals/br_table, only permitted env imports with their signatures, gas metering at every executing function, stack-height limiter present and effective on recursion).",
+    _WASM_NOTE, "DESIGN.md §4 C45")
+reg("C46", "rv-wasm", "exploration", "differential execution original-vs-instrumented + cost-shape monitors",
+    "Generated compute modules (arithmetic incl. trapping ops, memory, globals, structured control flow, br_table, direct/indirect calls, host imports) are executed un-instrumented under plain wasmi and instrumented under the repository's WasmiModule: results, whole memory, globals, trap class and host-call sequence must agree; charged units must be identical across instances and cold/cached engine, exactly affine in the iteration count for loop families, and identical for inputs that drive the same path.",
+    _WASM_NOTE + " Cost is checked as a deterministic function of the path (determinism + affinity), not re-derived per instruction.", "DESIGN.md §4 C46")
+reg("C47", "rv-wasm", "exploration", "byte-exact memory model vs recorded host-side buffers",
+    "A module importing all 49 host functions with pattern-filled memory is driven with (pointer, length) pairs from {0,1,size-1,size,size+1,2^31,2^32-1, exact fit, one over, random}, memory growth around the call and returned slices: in range the monitoring runtime must have received exactly the model's bytes (writes replace exactly the range), out of range the call must fail with MemoryAccessError without reaching the host and leave memory equal to the model; any panic is a violation.",
+    _WASM_NOTE + " Exercises the wasmi glue (where all memory accesses live), not full transactions through ScryptoRuntime.", "DESIGN.md §4 C47")
